@@ -73,3 +73,20 @@ Definition by_value_error : err := EMustPointer.
    k operations, each run by value, by pointer and by pointer-to-pointer:
    agree=<by value ~ by pointer><by pointer-to-pointer ~ by pointer> per operation; same=<arguments unchanged> per form *)
 Definition forms_demand (k : nat) : string := "agree=" ++ String.concat "." (repeat "11" k) ++ ";same=111".
+
+(* ---------- refusals as outcomes ----------
+   [before]: the content of the method's output parameter (result buffer, *result, the calls made
+   on the iterator so far, "no value") when the call starts. *)
+Definition refuses {S : Type} (r : refusal) (before : S) (o : out S) : Prop :=
+  match r with
+  | RUnsupported => o = Ret before (Some EUnsupported)
+  | RNoEffect => o = Ret before None
+  | RFalse => False
+  end.
+
+Definition refused {S : Type} (op : opname) (before : S) (o : out S) : Prop :=
+  exists r, In r (may_refuse op) /\ refuses r before o.
+
+(* DeepEqual answers with a boolean (or panics) *)
+Definition refused_bool (op : opname) (o : bool + pkind) : Prop :=
+  In RFalse (may_refuse op) /\ o = inl false.
